@@ -15,7 +15,7 @@ pub enum Case {
     Fs { game: u8, language: u8, path: String, payload: Payload, layers: u8 },
 }
 
-pub const PALETTE: [&str; 7] = ["m", "GameData.bin.lz", "sub dir", "\u{30C6}\u{30AD}\u{30B9}\u{30C8}", "@mods", "a.b-c_d", "@E"];
+pub const PALETTE: [&str; 9] = ["m", "GameData.bin.lz", "sub dir", "\u{30C6}\u{30AD}\u{30B9}\u{30C8}", "@mods", "a.b-c_d", "@E", "e_common.m", "s_"];
 
 fn localizer_of(i: u8) -> (PathLocalizer, Option<mila::Game>) {
     match i % 6 {
@@ -52,7 +52,7 @@ impl Prop for C14 {
     type Case = Case;
     const ID: &'static str = "C14";
     fn rule() -> String {
-        "Exhaustive: 6 localizers (NoOp, FE9, FE10, FE13, FE14, FE15) x 8 languages x every path of depth 1..=4 over a 7-component palette (ASCII, with dots, with a space, CJK, '@'-prefixed, a language-marker look-alike) \
+        "Exhaustive: 6 localizers (NoOp, FE9, FE10, FE13, FE14, FE15) x 8 languages x every path of depth 1..=4 over a 9-component palette (ASCII, with dots, with a space, CJK, '@'-prefixed, language-marker and file-prefix look-alikes such as '@E', 'e_common.m', 's_') \
          with and without a trailing slash (quick: depth <= 3) plus degenerate paths ('', '/', '..', 'a/..', '.', './a', 'a//b', 'a/.'); random: random plain components. Oracle: a specification table written from the statement \
          (directory markers E U - S F G I / @E @U - @S @F @G @I / @NOA_EN @NOE_EN @J @NOE_SP @NOE_FR @NOE_GE @NOE_IT @NOE_DU, file-name prefixes s_ d_ i_ f_ (+ e_ for FE10), none for Japanese (and English in FE9), Dutch unsupported except FE15, NoOp = identity): \
          expected = directory part + '/' + marker + final component, a single component gets the marker appended; unsupported pairs and paths without a final component => Err; odd-but-resolvable shapes only must not panic. \
@@ -67,7 +67,7 @@ impl Prop for C14 {
         ]
     }
     fn random_cases(tier: Tier) -> u64 {
-        tier.pick(6_000, 2_000_000)
+        tier.pick(30_000, 2_000_000)
     }
     fn strategy(_tier: Tier) -> BoxedStrategy<Case> {
         let path = (proptest::collection::vec(component(), 1..=4), any::<bool>()).prop_map(|(c, slash)| {
@@ -129,7 +129,7 @@ impl Prop for C14 {
         }
     }
     fn exhaustive_note(tier: Tier) -> Option<String> {
-        Some(format!("all 48 localizer x language pairs x every path of depth 1..={} over a 7-component palette (+ trailing-slash variants) and 8 degenerate paths; the filesystem clause for all 40 game x language pairs on 5 paths", tier.pick(3, 4)))
+        Some(format!("all 48 localizer x language pairs x every path of depth 1..={} over a 9-component palette (+ trailing-slash variants) and 8 degenerate paths; the filesystem clause for all 40 game x language pairs on 5 paths", tier.pick(3, 4)))
     }
 
     fn run(case: &Case, cx: &mut Cx) {
@@ -294,6 +294,22 @@ impl Prop for C14 {
                         if let Err(e) = &w {
                             cx.fail("fs-localized-write-ok", format!("{g:?}/{lang:?}: write({path:?}, localized) failed: {e}"));
                             return;
+                        }
+                        // create_dir applies the same mapping, also when the unlocalized directory already exists
+                        {
+                            let d = format!("{path}.d");
+                            let want_d = expected_localized(g, lang, &d).unwrap();
+                            let r1 = fs.create_dir(&d, false);
+                            let r2 = fs.create_dir(&d, true);
+                            let snap = snapshot(&top);
+                            let ok = r1.is_ok() && r2.is_ok() && matches!(lookup(&snap, &d), Some(Node::Dir)) && matches!(lookup(&snap, want_d.trim_end_matches('/')), Some(Node::Dir)) && matches!(fs.directory_exists(&d, true), Ok(true));
+                            if !cx.check(ok, "fs-localized-create-dir-location", || format!("{g:?}/{lang:?}: create_dir({d:?}) unlocalized then localized: results {:?} {:?}; expected directories {d:?} and {want_d:?}; top layer has {:?}; directory_exists(localized) = {:?}", r1.is_ok(), r2.is_ok(), snap.keys().collect::<Vec<_>>(), fs.directory_exists(&d, true).ok())) {
+                                return;
+                            }
+                            let _ = std::fs::remove_dir_all(std::path::Path::new(&top).join(&d));
+                            if want_d != d && !want_d.starts_with(&format!("{d}/")) {
+                                let _ = std::fs::remove_dir_all(std::path::Path::new(&top).join(want_d.trim_end_matches('/')));
+                            }
                         }
                         let snap = snapshot(&top);
                         if !cx.check(matches!(lookup(&snap, want), Some(Node::File(_))), "fs-localized-write-location", || format!("{g:?}/{lang:?}: localized write of {path:?} should land at {want:?}; top layer has {:?}", snap.keys().collect::<Vec<_>>())) {
